@@ -23,7 +23,7 @@ ASSUMPTIONS = ["dask time arrays and non-UTC time zones are outside the statemen
                "pressure_increasing_test documents no missing-data handling: it gets fully present series",
                "valid_range_test on sequences without a dtype is called with dtype= as its docstring asks"]
 
-DATA_KINDS = ["list_none", "list_nan", "tuple_nan", "f32", "int", "masked_nan", "masked_junk", "series", "series_shifted",
+DATA_KINDS = ["list_none", "list_nan", "tuple_nan", "f32", "int", "masked_nan", "masked_junk", "masked_mixed", "series", "series_shifted",
               "dask", "object"]
 TIME_KINDS = [k for k in carriers.TIME_CARRIERS if k != "dt64ns"]
 NAMES = ["gross_range", "climatology", "spike", "roc", "flat_line", "attenuated", "density", "pressure", "location", "speed"]
@@ -38,7 +38,7 @@ def carrier_case(draw, tier="quick"):
     tc = draw(any_case(tier, NAMES))
     if tc["test"] == "pressure":
         pass
-    tc["junk"] = draw(st.sampled_from([0.0, 1.0, -7.5, 1000.0]))
+    tc["junk"] = draw(st.sampled_from([0.0, 1.0, -7.5, 1000.0, -9999.0, 1e20]))
     t = REG()[tc["test"]]
     if t.timed and tc["test"] != "flat_line" and "t" in tc["case"] and draw(st.integers(0, 2)) == 0:
         # sub-second instants (multiples of 1/8 s): still the same logical times in every carrier that can hold them
@@ -64,7 +64,7 @@ def check_carriers(tc, rec):
         return
     combos = []
     for k in DATA_KINDS:
-        if name == "pressure" and k in ("list_none", "masked_nan", "masked_junk", "object"):
+        if name == "pressure" and k in ("list_none", "masked_nan", "masked_junk", "masked_mixed", "object"):
             continue
         combos.append(Carrier(data=k, aux="f64", junk=tc.get("junk", 0.0)))
     if t.aux or len(t.obs) > 1:
@@ -77,7 +77,7 @@ def check_carriers(tc, rec):
                 combos.append(Carrier(time=k))
     combos.append(Carrier(span="tuple"))
     for m in tc.get("mixed", []):
-        if name == "pressure" and m["data"] in ("list_none", "masked_nan", "masked_junk", "object"):
+        if name == "pressure" and m["data"] in ("list_none", "masked_nan", "masked_junk", "masked_mixed", "object"):
             continue
         if not carriers.time_applicable(m["time"], tvals):
             continue
